@@ -143,6 +143,10 @@ def c03(tier, seed):
     if tier == "quick":
         ms.append(model("reb-dy", ["S1", "F4"], ["quote", "trade", "rebal"], 4, fees="dy", dqs=(-2, 1), reqs=reqs_a, **kw))
         ms.append(model("reb-free", ["S1", "F4"], ["quote", "rebal"], 4, fees="free", reqs=reqs_a[:5], **kw))
+        # a fully-paid contract with a multiplier other than 1 next to a margined one
+        ms.append(model("reb-s2", ["S2", "F4"], ["quote", "rebal"], 4, fees="free", bids=(8,), spreads=(0, 4),
+                        reqs=[req({"S2": h, "F4": h}), req({"S2": F(-1)}), req({"S2": F(3, 2)}), req({})], maxrebal=2,
+                        invariants=inv, properties=props))
     else:
         ms.append(model("reb-dy", ["S1", "F4"], ["quote", "trade", "rebal"], 5, fees="dy", dqs=(-2, 1), reqs=reqs_a,
                         maxrebal=2, **kw))
